@@ -179,6 +179,37 @@ theorem generated_cca_scalar (v : α) (k : Kind) (hk : k ≠ Kind.other) (legal 
   have hm : ∃ s ∈ legal, Matches s sh := ⟨_, hmem, (matches_concrete sh sh).mpr rfl⟩
   simp [hk, hf, item, full, hc, bind, Except.bind, pure, Except.pure, hm]
 
+/-- `transpose=True` is the call on the transposed array. -/
+theorem generated_cca_transpose (x : Arr α) (legal : List LegalShape) (sq : Bool) :
+    checkConvertArray x legal sq true = checkConvertArray (transpose x) legal sq false := by
+  rw [generated_cca_eq, generated_cca_eq]; unfold checkConvert; simp
+
+/-- **Acceptance criterion with `transpose=True`**: the reversed shape must match a legal shape. -/
+theorem generated_cca_accepts_iff_transposed (x : Arr α) (legal : List LegalShape) (sq : Bool)
+    (hs : x.shape ≠ []) :
+    (∃ r, checkConvertArray x legal sq true = .ok r) ↔
+      x.kind ≠ Kind.other ∧ ∃ s ∈ legal, Matches s x.shape.reverse := by
+  rw [generated_cca_transpose]
+  have hs' : (transpose x).shape ≠ [] := by
+    show x.shape.reverse ≠ []
+    simpa using hs
+  exact generated_cca_accepts_iff (transpose x) legal sq hs'
+
+/-- **Validation is idempotent** on array arguments: validating the returned array again (same
+legal shapes, no squeeze, no transposition) returns it unchanged. -/
+theorem generated_cca_idempotent (x r : Arr α) (legal : List LegalShape) (hs : x.shape ≠ [])
+    (h : checkConvertArray x legal false false = .ok r) :
+    checkConvertArray r legal false false = .ok r := by
+  obtain ⟨hd, hk, hsh, -⟩ := generated_cca_data x r legal false hs h
+  have hsh' := hsh rfl
+  have hacc := (generated_cca_accepts_iff x legal false hs).mp ⟨r, h⟩
+  have hrs : r.shape ≠ [] := hsh' ▸ hs
+  obtain ⟨r', hr'⟩ := (generated_cca_accepts_iff r legal false hrs).mpr ⟨hk ▸ hacc.1, hsh' ▸ hacc.2⟩
+  obtain ⟨hd', hk', hsh2, -⟩ := generated_cca_data r r' legal false hrs hr'
+  have : r' = r := by
+    cases r; cases r'; simp_all
+  rw [hr', this]
+
 /-- non-vacuity: `forced_response`'s `X0` check on a concrete vector and a concrete scalar. -/
 example : checkConvertArray (α := Nat) ⟨[3, 1], [7, 8, 9], Kind.i⟩ [[.n 3], [.n 3, .n 1]] true false
     = .ok ⟨[3], [7, 8, 9], Kind.i⟩ := by rfl
